@@ -38,7 +38,7 @@ def fb(x):
 _T0 = time.time()
 
 
-def run_env(fn, cases, hashseed='0', cwd=None, par=16):
+def run_env(fn, cases, hashseed='0', cwd=None, par=2 * vlib.NPROC):
     """all cases of one environment through ONE interpreter (detfn.fanout forks
     `par` children, which fork again per case)"""
     if not cases:
@@ -346,7 +346,7 @@ def build_targets(ctx, tier):
     corp = vlib.run_impl('corpus.load', [None])[0]
     corp = [c for c in corp if 'src' in c]
     lim = os.environ.get('C20_LIMIT')
-    step = 1 if tier == 'thorough' else 8
+    step = 1 if tier == 'thorough' else 16
     progs = []
     for c in corp[::step]:
         progs.append({'src': c['src'], 'tag': f"{c['file']}:{c['idx']}",
@@ -354,7 +354,7 @@ def build_targets(ctx, tier):
                                  'timer': [fb(x) for x in c['timer']] + [fb(1.5)] * 5,
                                  'inkey': c['inkey']},
                       'kind': 'corpus:' + c.get('expected_result', '?')})
-    gens = [c20gen.gen_program(i) for i in range(40 if tier == 'thorough' else 24)]
+    gens = [c20gen.gen_program(i) for i in range(40 if tier == 'thorough' else 12)]
     for g in gens:
         progs.append({'src': g['src'], 'tag': g['tag'], 'script': GEN_SCRIPT, 'kind': 'generated'})
     if lim:                                     # development aids only; never set by ./check
@@ -392,7 +392,7 @@ def main(tier, seed):
     source_tie(ctx)
 
     progs, targets, gens, ncorp = build_targets(ctx, tier)
-    nlab = 24 if tier == 'thorough' else 12
+    nlab = 24 if tier == 'thorough' else 8
     labs = [c20gen.label_program(i) for i in range(nlab)]
     rseed = ctx.rng.randrange(3, 2 ** 32 - 1)
     seeds = ['1', '2', '12345', str(rseed)]
@@ -428,28 +428,39 @@ def main(tier, seed):
 
     log('hash seeds, pristine')
     # ---- hash seeds, pristine
-    for s in seeds:
-        cases = [{'t': pub(t), 'ref': refs[ti]['digest']} for ti, t in enumerate(targets)]
+    quick = tier != 'thorough'
+
+    def subset(j, m):
+        """thorough: every target; quick: the targets with index = j mod m"""
+        return [ti for ti in range(NT) if (not quick) or ti % m == j % m]
+    for j, s in enumerate(seeds):
+        sel = list(range(NT)) if j == 0 else subset(j, 3)
+        cases = [{'t': pub(targets[ti]), 'ref': refs[ti]['digest']} for ti in sel]
         ans = run_env('pristine', cases, hashseed=s)
-        for ti, (t, a) in enumerate(zip(targets, ans)):
+        for ti, a in zip(sel, ans):
+            t = targets[ti]
             S.judge('hashseed', 'hashseed', ti, t, a,
                     {'fn': 'detfn.pristine', 'hashseed': s, 'cwd': vlib.REPO, 'case': {'t': pub(t)}})
-        ctx.count(f'hashseed={s}', NT, ())
-    ctx.rule.append(f'hashseed: every target again in a pristine interpreter under PYTHONHASHSEED in {seeds} '
-                    '(the last one drawn from VERIF_SEED)')
+        ctx.count(f'hashseed={s}', len(sel), ())
+    ctx.rule.append(f'hashseed: targets again in a pristine interpreter under PYTHONHASHSEED in {seeds} (the last one '
+                    'drawn from VERIF_SEED): the first seed on every target; the others on every target (thorough) '
+                    'or on a third of the targets each (quick); all targets once more under PYTHONHASHSEED=random '
+                    'in the chain suite')
 
     log('other working directory')
     # ---- other working directory
-    cases = [{'t': pub(t), 'ref': refs[ti]['digest']} for ti, t in enumerate(targets)]
+    sel = subset(0, 3)
+    cases = [{'t': pub(targets[ti]), 'ref': refs[ti]['digest']} for ti in sel]
     ans = run_env('pristine', cases, hashseed='0', cwd=SCRATCH)
-    for ti, (t, a) in enumerate(zip(targets, ans)):
+    for ti, a in zip(sel, ans):
+        t = targets[ti]
         if isinstance(a, dict) and a.get('cwd') not in (None, SCRATCH) and not a.get('harness'):
             ctx.broken.append(f'cwd perturbation not effective: {a.get("cwd")}')
             break
         S.judge('cwd', 'cwd', ti, t, a,
                 {'fn': 'detfn.pristine', 'hashseed': '0', 'cwd': SCRATCH, 'case': {'t': pub(t)}})
-    ctx.count('cwd', NT, ())
-    ctx.rule.append(f'cwd: every target in a pristine interpreter started in {SCRATCH}')
+    ctx.count('cwd', len(sel), ())
+    ctx.rule.append(f'cwd: targets (all in thorough, a third in quick) in a pristine interpreter started in {SCRATCH}')
 
     log('reused process: long chains (every history length), seed 0 and seed random')
     # ---- reused process: long chains (every history length), seed 0 and seed random
@@ -494,7 +505,7 @@ def main(tier, seed):
         other_level = dict(pub(t))
         other_level['level'] = (t['level'] + 1 + (ti % 2)) % 3
         other_level['debug'] = not t['debug']
-        for k, every in ((1, 1), (5, 4), (20, 16)):
+        for k, every in (((1, 1), (5, 4), (20, 16)) if quick else ((1, 1), (5, 2), (20, 8))):
             if ti % every != 0:
                 continue
             if k == 1:
@@ -521,46 +532,49 @@ def main(tier, seed):
         for k in (1, 5, 20):
             ctx.count(f'history-k{k}', sum(1 for _, kk in hist_meta if kk == k), ())
     ctx.rule.append('history: fresh process that first compiles k other programs, then the target: k=1 (the same '
-                    'program at another level and debug setting; every target), k=5 (every 4th target), k=20 (every '
-                    f'16th); histories of k>1 always contain two of {len(bad_ts)} programs that fail (syntax errors, '
+                    'program at another level and debug setting; every target), k=5 (every 4th target in quick, 2nd in thorough), k=20 (every '
+                    f'16th / 8th); histories of k>1 always contain two of {len(bad_ts)} programs that fail (syntax errors, '
                     'compile errors, internal errors) and the same program at another level; every other history '
                     'program is also run')
 
     log('two compilers alive at once')
     # ---- two compilers alive at once
     cases = []
-    for ti, t in enumerate(targets):
+    two_sel = subset(1, 2)
+    for ti in two_sel:
         a = pub(targets[(ti * 7 + 3) % NT])
-        cases.append({'a': a, 'b': pub(t), 'order': ti % 3, 'ref': refs[ti]['digest']})
+        cases.append({'a': a, 'b': pub(targets[ti]), 'order': (ti // 2) % 3, 'ref': refs[ti]['digest']})
     slices['two'] = (len(batch), len(batch) + len(cases))
     batch += [{'fn': 'two_alive', 'case': c} for c in cases]
     two_cases = cases
 
     def judge_two(ans):
-        for ti, (t, a, c) in enumerate(zip(targets, ans, two_cases)):
-            S.judge('two-compilers', 'two-compilers', ti, t, a,
+        for ti, a, c in zip(two_sel, ans, two_cases):
+            S.judge('two-compilers', 'two-compilers', ti, targets[ti], a,
                     {'fn': 'detfn.two_alive', 'hashseed': '0', 'cwd': vlib.REPO, 'case': c})
-        ctx.count('two-compilers', NT, ())
+        ctx.count('two-compilers', len(two_sel), ())
     ctx.rule.append('two-compilers: the target and another target each get a Compiler instance before either '
-                    'compiles; three interleavings of compile/assemble of the two (by target index mod 3)')
+                    'compiles; three interleavings of compile/assemble of the two; all targets in thorough, every 2nd in quick')
 
     log('compile in a thread')
     # ---- compile in a thread
-    cases = [{'t': pub(t), 'ref': refs[ti]['digest']} for ti, t in enumerate(targets)]
+    thread_sel = subset(1, 3)
+    cases = [{'t': pub(targets[ti]), 'ref': refs[ti]['digest']} for ti in thread_sel]
     slices['thread'] = (len(batch), len(batch) + len(cases))
     batch += [{'fn': 'threaded', 'case': c} for c in cases]
     thread_cases = cases
 
     def judge_thread(ans):
-        for ti, (t, a, c) in enumerate(zip(targets, ans, thread_cases)):
-            S.judge('thread', 'thread', ti, t, a,
+        for ti, a, c in zip(thread_sel, ans, thread_cases):
+            S.judge('thread', 'thread', ti, targets[ti], a,
                     {'fn': 'detfn.threaded', 'hashseed': '0', 'cwd': vlib.REPO, 'case': c})
-        ctx.count('thread', NT, ())
-    ctx.rule.append('thread: compile + bytes + str inside a threading.Thread, run in the main thread')
+        ctx.count('thread', len(thread_sel), ())
+    ctx.rule.append('thread: compile + bytes + str inside a threading.Thread, run in the main thread (all targets '
+                    'in thorough, a third in quick)')
 
     log('wall clock: a second later (crossing a second boundary), and a really fresh interpreter')
     # ---- wall clock: a second later (crossing a second boundary), and a really fresh interpreter
-    nsl = 32 if tier == 'quick' else 160
+    nsl = 16 if tier == 'quick' else 160
     pick = sorted(ctx.rng.sample(range(NT), min(nsl, NT)))
     cases = [{'t': pub(targets[ti]), 'ref': refs[ti]['digest'], 'sleep': 1.1} for ti in pick]
     slices['later'] = (len(batch), len(batch) + len(cases))
@@ -572,7 +586,7 @@ def main(tier, seed):
             S.judge('later', 'wall-clock', ti, targets[ti], a,
                     {'fn': 'detfn.pristine', 'hashseed': '0', 'cwd': vlib.REPO, 'case': c})
         ctx.count('later', len(later_pick), ())
-    nfr = 16 if tier == 'quick' else 64
+    nfr = 8 if tier == 'quick' else 64
     pick = sorted(ctx.rng.sample(range(NT), min(nfr, NT)))
 
     def one_fresh(ti):
